@@ -712,6 +712,10 @@ class Runner:
             else:
                 self.stat("connections_reused")
             raw = self.build_request(ex)
+            if net.get("kind") == "pipeline" and ex["kind"] in ("store_valid", "store_malformed", "close", "close_malformed"):
+                # a second copy of a *state-changing* request may be served at any later time (or never): which exchange
+                # its effect belongs to is not decidable by the per-exchange bookkeeping - such requests are not pipelined
+                net = {}
             if net.get("kind") == "pipeline":
                 raw = raw + raw
             frags = _frags(random.Random(ex.get("frag_seed", 0)), len(raw), ex.get("frag_style", "whole"))
